@@ -2,9 +2,15 @@ import DryocVerif.Model.Protected
 import DryocVerif.Proofs.ProtectedErr
 import DryocVerif.Proofs.ProtectedErrExtra
 import DryocVerif.Proofs.ProtectedPanic
+import DryocVerif.Model.ProtectedTouch
+import DryocVerif.Proofs.ProtectedTouch
+import DryocVerif.Proofs.ProtectedUnrep
 /-
-C19 — refusal of memory locking.  The lock oracle is arbitrary (`State.m.oracle : Nat → Bool`
-answers the i-th request that reaches `mlock(2)`; `failfrom:K` installs a new one).
+C19 — refusal of memory locking.  The lock oracle is arbitrary (`State.m.oracle : Nat → LockAns` answers the i-th
+request that reaches `mlock(2)`: `grant` (the call goes through, and can still fail on `PROT_NONE` pages), `refuse`
+(clean refusal), `failFlagged` (Linux: the pages are flagged `VM_LOCKED`, then the population fails — the reason for
+the `libc::munlock` on the error path of `dryoc_mlock`); `Bool` oracles coerce (`true ↦ grant`, `false ↦ refuse`);
+`failfrom:K` installs a new `Bool` oracle).
 
 * Every token whose Rust entry point returns `Result` (lock, unlock, ro, rw, na, fsl, fsro,
   newlocked, genlocked, newrolocked, genrolocked, stacklock, serde:json:n, serde:bincode:n) never answers `panic`.
@@ -23,6 +29,16 @@ answers the i-th request that reaches `mlock(2)`; `failfrom:K` installs a new on
   inside `swap_some_or_err`: a failing `munlock(2)` / `mprotect(2)` is NOT REPRESENTABLE here, and
   none of `result_ops_never_panic`, `err_*`, `lock_err_*` says anything about it
   (see the header of `Model/Protected.lean`).
+  NOT REPRESENTABLE: a failing `mprotect_readwrite` inside `Protected::zeroize` / `Drop` (the Rust prints the error and
+  then writes); consequence if it happened: theorem `zeroize_mprotect_fails_segv` — the wipe hits a non-writable page,
+  SIGSEGV inside `Drop` (the "abort").
+  NOT REPRESENTABLE: a failing `munlock(2)` in the `munlock` transition (the Rust returns `Err`, drops `self` with the
+  record still `Locked`, `Drop` retries and ignores the error); consequence if it happened: theorem
+  `munlock_fails_leaks` — the pages go back to the allocator locked, `lockedPages > 0` after the last drop.
+* THE ERROR PATHS DO NOT FAULT: whenever `lock` (or a constructor) answers `err`, every byte access of the clean-up —
+  the wipe of the consumed / half-built region, after `mprotect_readwrite` where the record says so — lands on a
+  writable page (`lock_err_path_no_segv`, `err_path_no_segv`; general form `C14.step_no_segv`).  Past seeded
+  regressions crashed exactly there (`lock`'s error path scrubbing a read-only region).
 * OUT OF SCOPE (stated, not hidden): the non-`Result` operations `Clone for Locked/LockedRO` and
   `ResizableBytes::resize for Locked` re-lock with `expect` and DO panic when the request is
   refused (`clone_may_panic`, `resize_may_panic`; likewise `clone_from` of a locked region); the invariant C14
@@ -60,14 +76,17 @@ theorem recOfLock_eq (sl : Slot) (hg : sl.gone = false) (hrc : SlotRec sl)
 /-- a refused lock request on a live, non-empty, unlocked region (Plain, UR, URO, UNA) yields `err`.
 STATEMENT CHANGED: the consumed region is dropped with its RUNTIME RECORD (`recOfLock sl.o`: `new_with`'s for a bare
 container, the region's own `d.lm` / `d.pm` otherwise), which is `(Unlocked, pmOf sl.o.st)` whenever the record
-tracks the type (`recOfLock_eq`); before, the model consulted the type state. -/
+tracks the type (`recOfLock_eq`); before, the model consulted the type state.
+STATEMENT CHANGED AGAIN (`MADV_DONTDUMP` is modelled): the kernel handed to the failure path is the one AFTER the
+`madvise(MADV_DONTDUMP)` of `dryoc_mlock` (`madviseK … true`), which runs before `mlock` is even tried; `= false`
+on the oracle's answer (a `LockAns` now) means `= LockAns.refuse` (coercion `false ↦ refuse`). -/
 theorem refused_lock_err (c : Cfg) (s : State) (i : Nat) (sl : Slot)
     (hi : s.slots[i]? = some sl) (hg : sl.gone = false) (hu : isUnlockedSt sl.o.st = true)
     (hl : 0 < sl.o.v.len) (hr : s.m.oracle (s.m.cnt + 1) = false) :
     step c s ⟨.lock, i⟩ =
       (.err, setSlot (resetRel s)
-        (protDrop c (failedLock c (resetRel s).m s.m.k (ptr c sl.o.v) sl.o.v.len) sl.o.v (recOfLock sl.o).1
-          (recOfLock sl.o).2)
+        (protDrop c (failedLock c (resetRel s).m (madviseK c.P s.m.k (ptr c sl.o.v) sl.o.v.len true)
+          (ptr c sl.o.v) sl.o.v.len) sl.o.v (recOfLock sl.o).1 (recOfLock sl.o).2)
         i { sl with gone := true }) := by
   show opLock c (resetRel s) i = _
   rw [opLock_eq (s := resetRel s) hi hg hu]
@@ -156,6 +175,64 @@ where
 
 def cBytes16 : Cfg := { P := 4096, isArr := false, n := 16, wipe := true }
 
+/-! ### the error paths touch only pages that allow the access -/
+
+/-- **the error path of `lock` does not fault**: in every state satisfying `Inv`, whatever the oracle answers
+(`refuse`, `failFlagged`, or `grant` on `PROT_NONE` pages) and whatever the type state of the slot — read-only and
+no-access regions included —, every byte access of the token `lock` lands on a page that allows it: on failure the
+consumed region is dropped, and its `Drop` makes the pages writable BEFORE it wipes them (the record it consults
+tracks the type). -/
+theorem lock_err_path_no_segv (c : Cfg) (hP : 0 < c.P) (s : State) (h : Inv c s) (i : Nat) :
+    stepTouchesOk c s ⟨.lock, i⟩ = true :=
+  touches_step hP h _ rfl
+
+/-- … and so does every token that answers `err` or `panic` (failed constructors, refused re-locks of `clone` /
+`resize` / `clonefrom`): no probe token answers `err` / `panic` -/
+theorem err_path_no_segv (c : Cfg) (hP : 0 < c.P) (s : State) (h : Inv c s) (t : Tok)
+    (he : (step c s t).1 = .err ∨ (step c s t).1 = .panic) : stepTouchesOk c s t = true := by
+  refine touches_step hP h t ?_
+  cases hp : isProbe t.op with
+  | false => rfl
+  | true =>
+    have := probe_res c s t hp
+    rcases he with he | he
+    · exact absurd he this.1
+    · exact absurd he this.2
+
+/-- non-vacuity witness (`lock_err_path_no_segv`), conclusion CHECKED: a refused `lock` of an `Unlocked` READ-ONLY
+region and a failing `lock` of a `NoAccess` region answer `err`, and the wipe of the consumed region touches only
+writable pages -/
+example :
+    let s := runState cBytes16 (State.init fun _ => true)
+      [⟨.new, 0⟩, ⟨.lock, 0⟩, ⟨.unlock, 0⟩, ⟨.ro, 0⟩, ⟨.new, 0⟩, ⟨.lock, 1⟩, ⟨.unlock, 1⟩, ⟨.na, 1⟩, ⟨.failfrom 2, 0⟩]
+    (s.slots.map fun sl => sl.o.st) = [.prot .unlocked .ro, .prot .unlocked .na] ∧
+    (step cBytes16 s ⟨.lock, 1⟩).1 = .err ∧ stepTouchesOk cBytes16 s ⟨.lock, 1⟩ = true ∧
+    (step cBytes16 (step cBytes16 s ⟨.lock, 1⟩).2 ⟨.lock, 0⟩).1 = .err ∧
+    stepTouchesOk cBytes16 (step cBytes16 s ⟨.lock, 1⟩).2 ⟨.lock, 0⟩ = true := by
+  decide
+
+/-! ### what the model cannot represent (re-exported from `Proofs/ProtectedUnrep.lean`; see `C14` (k)) -/
+
+/-- NOT REPRESENTABLE: a failing `mprotect_readwrite` inside `Protected::zeroize` (= `Drop`), whose result the Rust
+ignores before it writes.  CONSEQUENCE IF IT HAPPENED: on a live, non-empty read-only / no-access region the wipe
+touches a non-writable page — SIGSEGV, the "abort" — whereas the real body's wipe does not. -/
+theorem zeroize_mprotect_fails_segv (c : Cfg) (hP : 0 < c.P) (s : State) (h : Inv c s) (i : Nat) (sl : Slot)
+    (hi : s.slots[i]? = some sl) (hg : sl.gone = false) (lm : LM) (pm : PM) (hst : sl.o.st = .prot lm pm)
+    (hpm : pm ≠ .rw) (hl : 0 < sl.o.v.len) :
+    protZeroizeMprotectFailsOk c s.m sl.o.v = false ∧ protZeroizeOk c s.m sl.o.v sl.o.rcd.2 = true :=
+  zeroize_mprotect_fails_faults hP h hi hg hst hpm hl
+
+/-- NOT REPRESENTABLE: a failing `munlock(2)` in the `munlock` transition.  CONSEQUENCE IF IT HAPPENED
+(`opUnlockMunlockFails`): `err`, the region is consumed, its data pages stay locked for ever; `lockedPages` is
+positive after the last drop. -/
+theorem munlock_fails_leaks (c : Cfg) (hP : 0 < c.P) (s : State) (h : Inv c s) (i : Nat) (sl : Slot)
+    (hi : s.slots[i]? = some sl) (hg : sl.gone = false) (pm : PM) (hst : sl.o.st = .prot .locked pm)
+    (hl : 0 < sl.o.v.len) :
+    (opUnlockMunlockFails c s i).1 = .err ∧
+    0 < lockedPages (finish c (opUnlockMunlockFails c s i).2).m.k :=
+  ⟨(Proofs.Protected.munlock_fails_leaks hP h hi hg hst hl).1,
+   (Proofs.Protected.munlock_fails_leaks hP h hi hg hst hl).2.2.2⟩
+
 /-! ### from the OUTCOME instead of the oracle -/
 
 /-- the lock oracle installed by `failfrom:K` refuses request `i` iff `1 ≤ K ≤ i` (so `K ≤ 0`
@@ -179,16 +256,58 @@ theorem lock_err_cleans_up (c : Cfg) (hP : 0 < c.P) (hw : c.wipe = true) (hu : c
   ⟨(lock_err_eq hi hg he).1, lock_err_cleans hP hw h hi hg he (Or.inl hu)⟩
 
 /-- the same before the repair of `dryoc_mlock` (`c.undo = false`), for every region that is not
-`NoAccess`: there an `err` can only be a refusal, which never reaches the kernel.  (For a non-empty
-`NoAccess` region the conclusion is FALSE in that variant: `C14.lock_noaccess_leaks`.) -/
+`NoAccess`, when the kernel did not flag the pages before failing (`hff`: the oracle's answer to this request is not
+`failFlagged`): there an `err` can only be a clean refusal, which never reaches the kernel's lock flags.  (For a
+non-empty `NoAccess` region the conclusion is FALSE in that variant: `C14.lock_noaccess_leaks`; for a `failFlagged`
+answer on accessible pages as well: `lock_err_failFlagged_leaky`.)
+STATEMENT CHANGED (the oracle is `Nat → LockAns` now): new hypothesis `hff`. -/
 theorem lock_err_cleans_up_leaky (c : Cfg) (hP : 0 < c.P) (hw : c.wipe = true)
     (s : State) (h : Inv c s) (i : Nat) (sl : Slot) (hi : s.slots[i]? = some sl) (hg : sl.gone = false)
-    (he : (step c s ⟨.lock, i⟩).1 = .err) (hna : pmOf sl.o.st ≠ .na) :
+    (he : (step c s ⟨.lock, i⟩).1 = .err) (hna : pmOf sl.o.st ≠ .na)
+    (hff : s.m.oracle (s.m.cnt + 1) ≠ .failFlagged) :
     (step c s ⟨.lock, i⟩).2.slots[i]? = some { sl with gone := true } ∧
     (step c s ⟨.lock, i⟩).2.m.rel = (if sl.o.v.cap = 0 then [] else [(sl.o.v.cap, 0)]) ∧
     (∀ p, inBlock c.P sl.o.v p →
       (step c s ⟨.lock, i⟩).2.m.k.perm p = .rw ∧ (step c s ⟨.lock, i⟩).2.m.k.locked p = false) :=
-  lock_err_cleans hP hw h hi hg he (Or.inr (Or.inl (by cases hpm : pmOf sl.o.st <;> simp_all [PM.perm])))
+  lock_err_cleans hP hw h hi hg he
+    (Or.inr (Or.inl ⟨by cases hpm : pmOf sl.o.st <;> simp_all [PM.perm], hff⟩))
+
+/-- non-vacuity witness (`lock_err_cleans_up_leaky`): a refused `lock` of a read-only region on the leaky variant —
+the answer to the request is `refuse`, not `failFlagged` -/
+example :
+    let cL : Cfg := { cBytes16 with undo := false }
+    let s := runState cL (State.init fun _ => true) [⟨.new, 0⟩, ⟨.lock, 0⟩, ⟨.unlock, 0⟩, ⟨.ro, 0⟩, ⟨.failfrom 1, 0⟩]
+    (∃ sl, s.slots[0]? = some sl ∧ sl.gone = false ∧ pmOf sl.o.st ≠ .na) ∧
+    (step cL s ⟨.lock, 0⟩).1 = .err ∧ s.m.oracle (s.m.cnt + 1) ≠ .failFlagged ∧
+    lockedPages (step cL s ⟨.lock, 0⟩).2.m.k = 0 := by
+  refine ⟨⟨_, rfl, ?_⟩, ?_⟩ <;> decide
+
+/-- **what is true WITHOUT the undo** (`c.undo = false`, the tree before the repair) when `mlock(2)` fails AFTER
+flagging the pages (`failFlagged`: `EAGAIN` / `ENOMEM` while populating ACCESSIBLE pages): `lock` answers `err`, the
+region is consumed and released — and every one of its data pages STAYS FLAGGED `VM_LOCKED`, with no handle left
+to unlock it.  This is finding E15's shape on accessible pages, and the reason for the bare `libc::munlock` on the
+error path of `dryoc_mlock`; with the undo nothing stays flagged (`lock_err_cleans_up`, whatever the answer). -/
+theorem lock_err_failFlagged_leaky (c : Cfg) (hP : 0 < c.P) (hu : c.undo = false) (s : State) (hrec : RecOK s)
+    (i : Nat) (sl : Slot) (hi : s.slots[i]? = some sl) (hg : sl.gone = false)
+    (hus : isUnlockedSt sl.o.st = true) (hl : 0 < sl.o.v.len)
+    (hor : s.m.oracle (s.m.cnt + 1) = .failFlagged) :
+    (step c s ⟨.lock, i⟩).1 = .err ∧
+    (step c s ⟨.lock, i⟩).2.slots[i]? = some { sl with gone := true } ∧
+    ∀ p, sl.o.v.base + 1 ≤ p → p < sl.o.v.base + 1 + pagesOf c.P sl.o.v.len →
+      (step c s ⟨.lock, i⟩).2.m.k.locked p = true :=
+  lock_failFlagged_leaks hP hu hrec hi hg hus hl hor
+
+/-- non-vacuity witness (`lock_err_failFlagged_leaky` against `lock_err_cleans_up`): the oracle answers
+`failFlagged` to the first request; `new; lock` on the leaky variant leaves one page locked for ever (also after the
+teardown), on the repaired model none -/
+example :
+    let o : Nat → LockAns := fun _ => .failFlagged
+    let cL : Cfg := { cBytes16 with undo := false }
+    (run cL (State.init o) [⟨.new, 0⟩, ⟨.lock, 0⟩]).map (fun r => (r.1, lockedPages r.2.m.k)) = [(.ok, 0), (.err, 1)] ∧
+    lockedPages (finish cL (runState cL (State.init o) [⟨.new, 0⟩, ⟨.lock, 0⟩])).m.k = 1 ∧
+    (run cBytes16 (State.init o) [⟨.new, 0⟩, ⟨.lock, 0⟩]).map (fun r => (r.1, lockedPages r.2.m.k)) =
+      [(.ok, 0), (.err, 0)] := by
+  decide
 
 /-- non-vacuity witness (`lock_err_cleans_up`): an `err` that is NOT a refusal — the oracle grants
 everything, `mlock(2)` fails on the `PROT_NONE` pages (`new; lock; unlock; na; lock`) — and one that
@@ -208,7 +327,7 @@ example :
 every other slot and every page of every other live region as it was.
 STATEMENT CHANGED: hypothesis `hz` (no `zeroize` of a non-empty `Protected` region other than `Unlocked`
 read-write in the history; `C14.inv_reachable`). -/
-theorem err_preserves_others_reachable (c : Cfg) (hP : 0 < c.P) (oracle : Nat → Bool) (toks : List Tok)
+theorem err_preserves_others_reachable (c : Cfg) (hP : 0 < c.P) (oracle : Nat → LockAns) (toks : List Tok)
     (hz : NoProtZeroize c (State.init oracle) toks) (t : Tok) (he : (step c (runState c (State.init oracle) toks) t).1 = .err) (j : Nat) (sl : Slot)
     (hj : j ≠ t.idx) (hs : (runState c (State.init oracle) toks).slots[j]? = some sl) :
     (step c (runState c (State.init oracle) toks) t).2.slots[j]? = some sl ∧
@@ -247,15 +366,18 @@ model: `C14.tight_reachable`), then all slots are as before, EVERY page of the k
 permission and the lock flag it had before — so the block allocated for the half-built region has
 been unlocked, made `rw` and given back —, the number of locked pages is unchanged, and every block
 released on the way was zeroed.  (The `err` here is a refused / failed `mlock` or a length
-mismatch; the unlocking and re-protecting done by the clean-up cannot fail in the model.) -/
+mismatch; the unlocking and re-protecting done by the clean-up cannot fail in the model.)
+STATEMENT CHANGED (the oracle is `Nat → LockAns` now): new hypothesis `hl` — the repaired `dryoc_mlock`
+(`c.undo = true`), or an oracle that never answers `failFlagged` (`NoFF`, e.g. any `Bool` oracle).  Without it a
+`failFlagged` answer leaves the pages of the released block flagged locked (`lock_err_failFlagged_leaky`). -/
 theorem err_create_no_residue (c : Cfg) (hP : 0 < c.P) (hw : c.wipe = true) (s : State) (h : Inv c s)
-    (ht : Tight c s) (t : Tok) (hop : t.op ≠ .lock) (he : (step c s t).1 = .err) :
+    (ht : Tight c s) (hl : c.undo = true ∨ NoFF s.m) (t : Tok) (hop : t.op ≠ .lock) (he : (step c s t).1 = .err) :
     (step c s t).2.slots = s.slots ∧
     (∀ p, (step c s t).2.m.k.perm p = s.m.k.perm p ∧ (step c s t).2.m.k.locked p = s.m.k.locked p) ∧
     lockedPages (step c s t).2.m.k = lockedPages s.m.k ∧
     (∀ e ∈ (step c s t).2.m.rel, e.2 = 0) :=
-  ⟨(err_create_kernel hP h ht t hop he).1, (err_create_kernel hP h ht t hop he).2.1,
-   (err_create_kernel hP h ht t hop he).2.2, relz_step hw s t⟩
+  ⟨(err_create_kernel hP h ht hl t hop he).1, (err_create_kernel hP h ht hl t hop he).2.1,
+   (err_create_kernel hP h ht hl t hop he).2.2, relz_step hw s t⟩
 
 /-- **the same over reachable states, hypothesis-free**: in every state the repaired model can
 reach (any oracle, any history), a constructor that answers `err` leaves all slots, every page's
@@ -263,7 +385,7 @@ permission and lock flag, and the number of locked pages exactly as they were, a
 released was zeroed (`inv_reachable` + `tight_reachable` discharge `Inv` and `Tight`).
 STATEMENT CHANGED: hypothesis `hz` (see `C14.inv_reachable`). -/
 theorem err_create_no_residue_reachable (c : Cfg) (hP : 0 < c.P) (hw : c.wipe = true)
-    (hu : c.undo = true) (oracle : Nat → Bool) (toks : List Tok)
+    (hu : c.undo = true) (oracle : Nat → LockAns) (toks : List Tok)
     (hz : NoProtZeroize c (State.init oracle) toks) (t : Tok) (hop : t.op ≠ .lock)
     (he : (step c (runState c (State.init oracle) toks) t).1 = .err) :
     let s := runState c (State.init oracle) toks
@@ -272,7 +394,7 @@ theorem err_create_no_residue_reachable (c : Cfg) (hP : 0 < c.P) (hw : c.wipe = 
     lockedPages (step c s t).2.m.k = lockedPages s.m.k ∧
     (∀ e ∈ (step c s t).2.m.rel, e.2 = 0) :=
   err_create_no_residue c hP hw _ (inv_runState hP toks (inv_init c oracle) hz)
-    (tight_runState hP toks (inv_init c oracle) (tight_init c oracle) hz (Or.inl hu)) t hop he
+    (tight_runState hP toks (inv_init c oracle) (tight_init c oracle) hz (Or.inl hu)) (Or.inl hu) t hop he
 
 /-- non-vacuity witness (`err_create_no_residue_reachable`): a reachable state and a constructor
 that answers `err` in it -/
@@ -369,14 +491,16 @@ theorem panic_leaves_no_trace :
 (every reachable state of the repaired model), for ANY token whose outcome is `panic` — `clone`, `resize`,
 `clonefrom` of a locked region whose re-lock is refused; nothing else can panic — all slots are as before, EVERY page
 of the kernel has the permission and the lock flag it had before, the number of locked pages is unchanged, and
-every block released on the way (the half-built copy, the harness' probe clone) was zeroed. -/
+every block released on the way (the half-built copy, the harness' probe clone) was zeroed.
+STATEMENT CHANGED (the oracle is `Nat → LockAns` now): new hypothesis `hl` (repaired `dryoc_mlock`, or an oracle that
+never answers `failFlagged`), as in `err_create_no_residue`. -/
 theorem panic_preserves_all (c : Cfg) (hP : 0 < c.P) (hw : c.wipe = true) (s : State) (h : Inv c s)
-    (ht : Tight c s) (t : Tok) (hp : (step c s t).1 = .panic) :
+    (ht : Tight c s) (hl : c.undo = true ∨ NoFF s.m) (t : Tok) (hp : (step c s t).1 = .panic) :
     (step c s t).2.slots = s.slots ∧
     (∀ p, (step c s t).2.m.k.perm p = s.m.k.perm p ∧ (step c s t).2.m.k.locked p = s.m.k.locked p) ∧
     lockedPages (step c s t).2.m.k = lockedPages s.m.k ∧
     (∀ e ∈ (step c s t).2.m.rel, e.2 = 0) :=
-  ⟨(panic_kernel hP h ht t hp).1, (panic_kernel hP h ht t hp).2.1, (panic_kernel hP h ht t hp).2.2,
+  ⟨(panic_kernel hP h ht hl t hp).1, (panic_kernel hP h ht hl t hp).2.1, (panic_kernel hP h ht hl t hp).2.2,
    relz_step hw s t⟩
 
 /-- a `panic` can only come from `clone`, `resize` or `clonefrom` (in particular never from a `Result` token, from
